@@ -40,6 +40,7 @@ const (
 	KIter    = "iter"    // <{|i| pre; yield i if i < Int; post; recur(i + 1)}>.new(0)   (L = pre, Post = post statements)
 	KNative  = "native"  // recv.<Str: map|select|exclude|all?|any?|reduce>(callback B [, init: C]); Bool = trailing-block form
 	KAssignE = "assigne" // (Str := A) as an expression
+	KPin     = "pin"     // ^Str as the key of an object/map pair: the value of variable Str is the key
 	KTry     = "try"     // recv.try.{|x| body}.<accessor Str: val | or | err?>  (C = default of or)
 	KProgram = "program"
 )
@@ -410,6 +411,8 @@ func printExpr(sb *strings.Builder, n *N, depth int) {
 			printExpr(sb, n.C, depth)
 			sb.WriteString(")")
 		}
+	case KPin:
+		sb.WriteString("^" + n.Str)
 	case KAssignE:
 		sb.WriteString("(" + n.Str + " := ")
 		printExpr(sb, n.A, depth)
